@@ -466,9 +466,15 @@ def run_property(chk, prop, laws, quick_gen=300, thorough_gen=4000, scns=None, n
             if fv.get("status") not in ("SUCCEEDED", "FAILED") and s.steps < 2500:
                 probs.append(("C02.terminal_reached", {"final": fv, "volatile": s.snapshot_volatile()}))
             # the reference semantics of the whole run is asked from the driver once, after all runs
-            pending_runs.append({"probs": probs, "case": case, "hand": hand,
+            # C09.history_matches_reference: where the reference semantics speaks about the run — a STANDARD execution of a
+            # machine without TimeoutSeconds, not under a stalled broker, workers driven by a plan (an oracle exists), ended
+            want_hist = ("C09" in laws and pl is not None and scn.sm_type == "STANDARD" and kind != "stall"
+                         and "TimeoutSeconds" not in scn.machine and not scn.extra.get("machines")
+                         and fv.get("status") in ("SUCCEEDED", "FAILED") and not s.errors)
+            pending_runs.append({"probs": probs, "case": case, "hand": hand, "kind": kind,
+                                 "hist": (list(getattr(mon, "final_history", []) or []), len(s.rpc_requests)) if want_hist else None,
                                  "mline": (__import__("props.c01", fromlist=["x"]).model_line(scn.machine, scn.data, ea, pl.oracle())
-                                           if (pl is not None and (expect is not None or (skip_multi and not hand))) else None),
+                                           if (pl is not None and (expect is not None or (skip_multi and not hand) or want_hist)) else None),
                                  "pre": expect.pre(scn, s, ea, pl, fv) if expect is not None else None, "scn": scn, "fv": fv})
             # Lean recognisers over what the engine did
             if scn.sm_type == "STANDARD":
@@ -501,6 +507,11 @@ def run_property(chk, prop, laws, quick_gen=300, thorough_gen=4000, scns=None, n
         if skip_multi and not pr["hand"] and mo is not None and mo.get("multiFail"):
             chk.dist("skipped.multiple_failures(C06)")
             continue
+        if pr["hist"] is not None and mo is not None:
+            mode, hp = enginerun.compare_history(pr["case"]["machine"], mo, pr["hist"][0], pr["hist"][1])
+            chk.dist("history_vs_reference.%s.%s" % (pr["kind"], mode))
+            if hp:
+                probs = probs + [("C09.history_matches_reference", {"mode": mode, "differences": hp})]
         seen = set()
         for law, detail in probs:
             if not any(law.startswith(l) for l in laws) or law in seen:
@@ -541,7 +552,11 @@ def run_property(chk, prop, laws, quick_gen=300, thorough_gen=4000, scns=None, n
                        "machine; Parallel 2-3 and Map with MaxConcurrency 0-2, all succeeding or with exactly one unhandled failing "
                        "branch / item; Fail-vs-Wait-vs-Task siblings; nesting) under the canonical and %d seeded random schedules, "
                        "plus generated machines (canonical + 1 random schedule); the laws are evaluated after every step; "
-                       "distinct = distinct (scenario, schedule); non-trivial = more than 2 steps" % n_rand)
+                       "distinct = distinct (scenario, schedule); non-trivial = more than 2 steps; C09.history_matches_reference: "
+                       "for STANDARD executions that ended (no TimeoutSeconds, no stalled broker) the StateEntered / StateExited events "
+                       "and the number of task requests are compared with the log of Asl.run under every explored schedule — as "
+                       "sequences without fan-outs, as multisets with fan-outs none of which failed, exits-only inclusion otherwise"
+                       % n_rand)
 
 
 def replay_case(chk, path):
